@@ -2478,8 +2478,7 @@ pub(crate) mod verif {
     pub(crate) fn default_connection_config() -> super::ConnectionConfig {
         super::ConnectionConfig {
             local_ip_address: None,
-            shard_aware_local_port_range:
-                crate::routing::ShardAwarePortRange::EPHEMERAL_PORT_RANGE,
+            shard_aware_local_port_range: crate::routing::ShardAwarePortRange::EPHEMERAL_PORT_RANGE,
             compression: None,
             tcp_socket_options: super::TcpSocketOptions::default(),
             timestamp_generator: None,
@@ -2603,7 +2602,11 @@ pub(crate) mod verif {
             for (req, s) in m.request_to_stream.iter() {
                 match m.handlers.get(s) {
                     Some(h) if h.request_id == *req => {}
-                    _ => return Err(format!("request {req} maps to stream {s} with another owner")),
+                    _ => {
+                        return Err(format!(
+                            "request {req} maps to stream {s} with another owner"
+                        ));
+                    }
                 }
             }
             Ok(())
